@@ -805,8 +805,13 @@ def evaluate__parse_json_functions(self: XPathFunction, context: ta.ContextType 
         if href and urlsplit(href).fragment:
             raise self.error('FOUT1170') from None
         raise self.error('FOJS0001') from None
+    except RecursionError:
+        raise self.error('FOJS0001', "the JSON text is nested too deeply") from None
     else:
-        return decode_value(result)
+        try:
+            return decode_value(result)
+        except RecursionError:
+            raise self.error('FOJS0001', "the JSON text is nested too deeply") from None
 
 
 @method(function('load-xquery-module', nargs=(1, 2),
@@ -1421,6 +1426,8 @@ def evaluate__json_to_xml(self: XPathFunction, context: ta.ContextType = None) \
             result = json.JSONDecoder(**kwargs).decode(json_text)
     except json.JSONDecodeError as err:
         raise self.error('FOJS0001', str(err)) from None
+    except RecursionError:
+        raise self.error('FOJS0001', "the JSON text is nested too deeply") from None
 
     if is_etree_element(result):
         document = etree.ElementTree(result)
